@@ -96,4 +96,18 @@ pub fn gen(o: &Opts, sink: &mut dyn FnMut(Vec<i64>, String)) {
         }
         sink(c, String::new());
     }
+    // a unit that keeps repeating the SAME frame every 100 ms against a 150 ms timeout must stay healthy
+    // (identical frames are messages too), for every unit kind
+    let nr = if o.tier_thorough { 60 } else { 12 };
+    for j in 0..nr {
+        k += 1; if !mine(o, k) { continue; }
+        let mut rng = Rng::new(o.seed, 9_300_000 + j);
+        let (key, da) = [(1i64, 0x4ai64), (4, 0x6a), (5, 0x7a), (2, 0x12), (7, 0x00), (3, 0x20)][(j % 6) as usize];
+        let mut c = config(&[(key, da, None, 3)]);
+        let f = frame_from(key, da, &mut rng);
+        c.push(2);
+        for _ in 0..(3 + rng.below(3)) { c.extend(f.iter()); c.push(2); c.extend([4, 100]); }
+        c.push(2);
+        sink(c, String::new());
+    }
 }
